@@ -86,6 +86,9 @@ Tables ==
              ps == {<<JSONM>>, <<XMLM>>}
              rts == {[R0("POST", "/a") EXCEPT !.cons = c, !.prod = p] : c \in cs, p \in ps}
          IN {<<Svc("/r", <<p[1], p[2]>>)>> : p \in {x \in rts \X rts : x[1] # x[2]}}
+    [] Mode = "rootvar" ->
+         \* a root path with a variable and more tokens than variables; routes with ONE variable each, under different names
+         {<<Svc("/r/{w}", rs)>> : rs \in RouteSeqs(Routes1({"/{x}", "/a/{y}", "/{z}/b", "/{n:[0-9]+}"}, {"GET"}), 2)}
     [] Mode = "sufroot" ->
          \* a WebService on "/" next to services whose root path has a {v}suffix token / a regex parameter; routes with a {v}suffix token
          LET rts == {<<R0("GET", "/a")>>, <<R0("GET", "/{x}")>>, <<R0("GET", "/{s}.f")>>} IN
